@@ -1705,6 +1705,8 @@ class ListProxy(list):
     def extend(self, objects):
         if self._parameter.names:
             self._warn('.append')
+        # (an iterator can be consumed only once)
+        objects = list(objects)
         with self._trigger():
             super().extend(objects)
             self._parameter._objects.extend(objects)
@@ -1748,6 +1750,9 @@ class ListProxy(list):
                 'Cannot pop an object from {clsname}.objects if '
                 'objects was not declared as a dictionary.'
             )
+        if len(args) > 1 and index not in self._parameter.names:
+            # dict.pop(key, default): nothing to remove
+            return args[1]
         with self._trigger():
             object = self._parameter.names.pop(*args)
             super().remove(object)
@@ -1765,7 +1770,7 @@ class ListProxy(list):
                     k: v for k, v in copy.items() if v is not object
                 })
 
-    def update(self, objects, **items):
+    def update(self, objects=(), **items):
         if not self._parameter.names:
             self._parameter.names = _named_objs(self)
         objects = objects.items() if isinstance(objects, dict) else objects
